@@ -27,7 +27,7 @@ import copy
 import hashlib
 
 from ..model import ANALYSIS, DEX, AnalysisError, walk_no_nested, calls_in
-from ..modeleval import Interp, Env, Pt, Obj, PyModel, PyRaise, NotModelled, Sink
+from ..modeleval import Interp, Env, Pt, Obj, PyModel, PyRaise, NotModelled, Sink, clone_func
 from ..order import weak_orderings, describe
 
 LENIENT = ("loguru.logger", "logger", "logging")
@@ -562,7 +562,7 @@ def mutation_adequacy(ctx, repo):
     killed = total = bsilent = btotal = 0
     for name, func, tr, breaking in _mutants(m, d):
         orig = func.node
-        mut = copy.deepcopy(orig)
+        mut = clone_func(orig)
         if not tr(mut):
             raise AnalysisError("mutation %r no longer applies (rule lost its anchor)" % name)
         ast.fix_missing_locations(mut)
